@@ -92,9 +92,10 @@ Inductive darg := DInt (z : Z) | DBool (x : bool) | DOther.
 Definition fn_is (fn name : bstr) : bool := bstr_eqb fn name.
 
 (* [fn] is the Go function bound in the PrintDirectives table (regenerated);
-   the value is represented by its String() image.  Unknown functions are
-   outside the model ([OutOfFuel] is never produced here; [Crash] marks
-   "not modelled" so the harness can skip the comparison). *)
+   the value is represented by its String() image.  Functions without a model here
+   (directiveEscapeJsString, directiveJson: Model/JsEscape.v is not wired in) answer
+   [OutOfModel]: whatever they do happens inside evalPrint's recover wrapper, so it is
+   a value or an [Err], never a panic that reaches the caller ([Crash]). *)
 Definition apply_fn (fn : bstr) (args : list darg) (s : bstr) : outcome bstr :=
   if fn_is fn fn_NoAutoescape then Ok s
   else if fn_is fn fn_EscapeHtml then Ok (tmpl_html_escape s)
@@ -109,6 +110,8 @@ Definition apply_fn (fn : bstr) (args : list darg) (s : bstr) : outcome bstr :=
     match args with
     | [DInt n] => truncate s n true
     | [DInt n; DBool e] => truncate s n e
+    | [DInt n; _] =>           (* the ellipsis argument is type-checked only when the value does not fit *)
+        if (Z.of_nat (length s) <=? n)%Z then Ok s else Err e_type
     | _ => Err e_type
     end
-  else Crash e_notmodelled.
+  else OutOfModel.
